@@ -217,6 +217,20 @@ macro_rules! impl_cam {
                                         }
                                         Err(msg) => c.violation(&format!("C07/cam16/{}/{}/{}->Xyz/panic", <T as Fl>::NAME, cond.name, $name), 1.0, || json!({"sub": "cam16", "float": <T as Fl>::NAME, "cond": cond.name, "what": concat!($name, "->Xyz"), "input": hex(&inp), "value": f64s(&inp), "observed": {"panic": msg}, "expected": "no panic"})),
                                     }
+                                    // partial -> full colour: attribute algebra only (J <-> Q, C <-> M <-> s), defined on the whole
+                                    // boundary lattice incl. black with a non-zero chromatic attribute
+                                    tr += 1;
+                                    match pv::catch(|| {
+                                        let f = k.into_full(baked);
+                                        vec![f.lightness, f.chroma, f.hue.into_inner(), f.brightness, f.colorfulness, f.saturation]
+                                    }) {
+                                        Ok(v) => {
+                                            if !fin(&v) {
+                                                c.violation(&format!("C07/cam16/{}/{}/{}->Cam16/non-finite", <T as Fl>::NAME, cond.name, $name), 1.0, || json!({"sub": "cam16", "float": <T as Fl>::NAME, "cond": cond.name, "what": concat!($name, "->Cam16 (into_full)"), "input": hex(&inp), "value": f64s(&inp), "observed": f64s(&v), "expected": "finite components, no panic"}));
+                                            }
+                                        }
+                                        Err(msg) => c.violation(&format!("C07/cam16/{}/{}/{}->Cam16/panic", <T as Fl>::NAME, cond.name, $name), 1.0, || json!({"sub": "cam16", "float": <T as Fl>::NAME, "cond": cond.name, "what": concat!($name, "->Cam16 (into_full)"), "input": hex(&inp), "value": f64s(&inp), "observed": {"panic": msg}, "expected": "no panic"})),
+                                    }
                                 }};
                             }
                             inv!("Cam16Jch", Cam16Jch, Given::Jc, lightness, js[ia], chroma);
@@ -231,7 +245,7 @@ macro_rules! impl_cam {
             }
             c.add(&sub, st, tr, tr, st);
             total.merge(c);
-            total.exhaustive(&sub, true, &format!("{} viewing conditions (L_A 40 / 4 / 318, average / dim / dark, auto / full discounting; D65) x ({} XYZ values: the {} XYZ boundary lattice + the cube lattices of sRGB, Rec.2020 and Adobe RGB) x (Cam16 + 6 partial types forward and back, the UCS chain) + the boundary lattice of the 6 partial types (4 x 4 x {} hues) through the inverse model", CONDS.len(), xyzs.len(), if dense { "dense" } else { "coarse" }, hues.len()));
+            total.exhaustive(&sub, true, &format!("{} viewing conditions (L_A 40 / 4 / 318, average / dim / dark, auto / full discounting; D65) x ({} XYZ values: the {} XYZ boundary lattice + the cube lattices of sRGB, Rec.2020 and Adobe RGB) x (Cam16 + 6 partial types forward and back, the UCS chain) + the boundary lattice of the 6 partial types (4 x 4 x {} hues) through the inverse model and into_full", CONDS.len(), xyzs.len(), if dense { "dense" } else { "coarse" }, hues.len()));
         }
     };
 }
